@@ -304,6 +304,7 @@ func (t *Task) runWithLocking() {
 	// enter executing state
 	t.executing = true
 	t.lock.Unlock()
+	verifPoint("tasks.run.checked", t.name)
 
 	// wait for good timeslot regarding microtasks
 	select {
@@ -355,7 +356,9 @@ func (t *Task) executeWithLocking() {
 
 		// finish for module
 		atomic.AddInt32(t.module.taskCnt, -1)
+		verifPoint("modules.work.decremented", t.module.Name)
 		t.module.checkIfStopComplete()
+		verifPoint("tasks.exec.returned", t.name)
 
 		t.lock.Lock()
 
@@ -503,6 +506,7 @@ func taskQueueHandler() {
 			// value -> Task
 			t := e.Value.(*Task) //nolint:forcetypeassert // Can only be *Task.
 			// run
+			verifPoint("tasks.handler.popped", t.name)
 			t.runWithLocking()
 		}
 	}
